@@ -34,10 +34,10 @@ func init() {
 				n = "9"
 			}
 			return map[string]string{
-				"free strings": "every ASCII string (all 128 values per byte) of length 0.." + n + " without an 'xn--' label, through the real idna.ToASCII",
-				"IDN":          "names of 29..32 two-byte labels (punycode 240..264 bytes) and of 3..5 labels of 40 two-byte letters (raw 245..407 bytes) with one arbitrary ASCII byte in the final label, through the real idna.ToASCII (punycode) for all three validators",
+				"free strings":        "every ASCII string (all 128 values per byte) of length 0.." + n + " without an 'xn--' label, through the real idna.ToASCII",
+				"IDN":                 "names of 29..32 two-byte labels (punycode 240..264 bytes) and of 3..5 labels of 40 two-byte letters (raw 245..407 bytes) with one arbitrary ASCII byte in the final label, through the real idna.ToASCII (punycode) for all three validators",
 				"numeric final label": "final labels of 1..4, 9..11, 19..21, 38..40 and 63 bytes made of '9's or of the leading digits of 2^64/2^128 with two arbitrary ASCII bytes (one at a chosen position, one last), after 'a.' or '_s.b.', for all three validators",
-				"boundaries":   "label lengths 62..64, service labels 15..18, total lengths 252..254; bytes from [a-z0-9_-] minus 'x' with one arbitrary ASCII byte at the first/last position of the boundary label",
+				"boundaries":          "label lengths 62..64, service labels 15..18, total lengths 252..254; bytes from [a-z0-9_-] minus 'x' with one arbitrary ASCII byte at the first/last position of the boundary label",
 			}
 		},
 		Outside:     []string{"names with non-ASCII bytes or 'xn--' labels: the statement takes idna.ToASCII as given; for those inputs its result is not modelled", "names longer than the bound outside the boundary shapes", "error message texts"},
@@ -69,14 +69,14 @@ func init() {
 				x, sh, sep = "9", "8", "one separator position arbitrary"
 			}
 			return map[string]string{
-				"round trip":          "none on the address: all 2^32 IPv4 (4-byte and IPv4-mapped 16-byte net.IP) and all 2^128 IPv6 addresses; IPv4 names in every letter-case combination (one symbolic flag per letter), IPv6 names all-lower, all-upper and each single letter position upper; with and without one trailing dot",
-				"accepted language v4": "X ++ j ++ 'in-addr.arpa' (every case of the root, optional dot), X any ASCII string of length 0.." + x + " without 'xn--' label, j any ASCII byte (for empty X also absent)",
-				"accepted language v6, separators": "72-byte shape with fixed hex nibbles; one of the 32 separators is an arbitrary ASCII byte and both neighbour nibbles are arbitrary ASCII bytes",
-				"accepted language v6, lengths": "a full 32-nibble name with 1..2 extra one-byte labels in front, or with its first 1..2 labels missing (68..76 bytes), first label arbitrary ASCII",
-				"non-ASCII root":        "a complete in-addr.arpa / ip6.arpa name in which one byte of the root is replaced by an arbitrary two-byte UTF-8 rune (thorough: or a three-byte rune U+1000..U+CFFF), through the real idna, strings.ToLower and unicode tables",
-				"accepted language, IPv6 text before in-addr.arpa": "optional leading '::', 0..2 hex fields of width 1 or 4 (all digits symbolic, any case), optional '::', a dotted quad of symbolic digits, '.in-addr.arpa' in every case, optional dot",
-				"accepted language v6": "32 arbitrary ASCII bytes (not '.', not 'x') at the nibble positions of the 72-byte shape, " + sep + ", root in every letter case, optional dot",
-				"short strings":        "every ASCII string of length 0.." + sh,
+				"round trip":                                       "none on the address: all 2^32 IPv4 (4-byte and IPv4-mapped 16-byte net.IP) and all 2^128 IPv6 addresses; IPv4 names in every letter-case combination (one symbolic flag per letter), IPv6 names all-lower, all-upper and each single letter position upper; with and without one trailing dot",
+				"accepted language v4":                             "X ++ j ++ 'in-addr.arpa' (every case of the root, 0..2 trailing dots), X any ASCII string of length 0.." + x + " without 'xn--' label, j any ASCII byte (for empty X also absent)",
+				"accepted language v6, separators":                 "72-byte shape with fixed hex nibbles; one of the 32 separators is an arbitrary ASCII byte and both neighbour nibbles are arbitrary ASCII bytes",
+				"accepted language v6, lengths":                    "a full 32-nibble name with 1..2 extra one-byte labels in front, or with its first 1..2 labels missing (68..76 bytes), first label arbitrary ASCII",
+				"non-ASCII root":                                   "a complete in-addr.arpa / ip6.arpa name in which one byte of the root is replaced by an arbitrary two-byte UTF-8 rune (thorough: or a three-byte rune U+1000..U+CFFF), through the real idna, strings.ToLower and unicode tables",
+				"accepted language, IPv6 text before in-addr.arpa": "optional leading '::', 0..2 hex fields of width 1 or 4 (all digits symbolic, any case), optional '::', a dotted quad of symbolic digits, '.in-addr.arpa' in every case, 0..2 trailing dots",
+				"accepted language v6":                             "32 arbitrary ASCII bytes (not '.', not 'x') at the nibble positions of the 72-byte shape, " + sep + ", root in every letter case, 0..2 trailing dots",
+				"short strings":                                    "every ASCII string of length 0.." + sh,
 			}
 		},
 		Outside:     []string{"names with non-ASCII bytes elsewhere than one rune in the root", "IPv6 names with more than one displaced separator", "IPv6 round-trip names with several but not all letters in upper case"},
